@@ -76,8 +76,13 @@ func runC15(c *Ctx) {
 	i64 := refcbor.NInt
 
 	ktys := []*Node{i64(0), i64(1), i64(2), i64(4), i64(99), refcbor.NTstr("EC2")}
-	crvs := []*Node{nil, i64(0), i64(1), i64(2), i64(3), i64(4), i64(5), i64(6), i64(7), i64(8), i64(-1), refcbor.NTstr("P-256")}
-	algs := []*Node{nil, i64(0), i64(-7), i64(-35), i64(-36), i64(-8), i64(-37), i64(99)}
+	crvs := []*Node{nil, i64(0), i64(1), i64(2), i64(3), i64(4), i64(5), i64(6), i64(7), i64(8), i64(-1), refcbor.NTstr("P-256"),
+		// (from here on: reduced key_ops dimension) the registered Brainpool curves and unassigned values
+		i64(256), i64(257), i64(258), i64(259), i64(260), i64(1000), i64(-65537)}
+	algs := []*Node{nil, i64(0), i64(-7), i64(-35), i64(-36), i64(-8), i64(-37), i64(99),
+		// (reduced key_ops dimension) text algorithms, ECDSA with other hashes, algorithms of other families
+		refcbor.NTstr("ES256"), refcbor.NTstr("ES512"), refcbor.NTstr("EdDSA"), refcbor.NTstr(""), i64(-47), i64(-257), i64(5), i64(1)}
+	const crvCore, algCore = 12, 8
 	opss := []*Node{nil, refcbor.NArr(), refcbor.NArr(i64(1)), refcbor.NArr(i64(2)), refcbor.NArr(i64(1), i64(2)), refcbor.NArr(refcbor.NTstr("sign")), refcbor.NArr(refcbor.NTstr("verify"), i64(1)),
 		refcbor.NArr(i64(3)), refcbor.NArr(i64(77), i64(2)), refcbor.NArr(refcbor.NTstr("bogus"))}
 	opsNames := []string{"absent", "empty", "sign", "verify", "sign+verify", "text-sign", "text-verify+sign", "encrypt", "unknown+verify", "bogus-text"}
@@ -91,6 +96,9 @@ func runC15(c *Ctx) {
 		for b := range crvs {
 			for cc := range algs {
 				for d := range opss {
+					if (b >= crvCore || cc >= algCore) && d != 0 && d != 4 {
+						continue
+					}
 					jobs = append(jobs, job{a, b, cc, d})
 				}
 			}
@@ -573,6 +581,37 @@ func c15judgeWire(rec *mon.Recorder, b []byte, cell, source string) {
 		return
 	}
 	n = refcose.StripTags(n) // tags are looked through by the (tag-tolerant) key decoder
+	// the key material itself survives re-encoding: byte strings under -2, -3, -4 (and a byte-string -1)
+	// come back unchanged; only on an EC2 key of P-256/P-384/P-521 may a shorter coordinate come back
+	// left-padded with zeros to the curve's size (RFC 9053 7.1.1 wants the full length)
+	if n1, e1 := refcbor.Parse(c1); e1 == nil && n1.Major == refcbor.Map {
+		n1 = refcose.StripTags(n1) // a tag around a parameter value is kept by the re-encoding; it is not key material
+		f := c15wireFacts(n)
+		padTo := 0
+		if f.ktyInt && f.kty == 2 && f.crvInt && f.crv >= 1 && f.crv <= 3 {
+			padTo = c15sizes[f.crv-1]
+		}
+		top, _ := refcbor.Parse(b)
+		for top != nil && top.Major == refcbor.Tag {
+			top = top.Kids[0]
+		}
+		for _, l := range []int64{-1, -2, -3, -4} {
+			vin, vout := refcose.Lookup(n, l), refcose.Lookup(n1, l)
+			if vin == nil || vin.Major != refcbor.Bstr {
+				continue
+			}
+			if raw := refcose.Lookup(top, l); raw == nil || raw.Major != refcbor.Bstr {
+				continue // a tagged value (e.g. a bignum) is not a byte-string coordinate
+			}
+			same := vout != nil && vout.Major == refcbor.Bstr && eqBytes(vout.Str, vin.Str)
+			padded := vout != nil && vout.Major == refcbor.Bstr && l != -1 && padTo > len(vin.Str) && len(vout.Str) == padTo &&
+				eqBytes(vout.Str[padTo-len(vin.Str):], vin.Str) && allZero(vout.Str[:padTo-len(vin.Str)])
+			if !same && !padded {
+				rec.Violate("key-material-changed", fmt.Sprintf("%s/label=%d", source, l), fmt.Sprintf("parameter %d was %s and is %s after re-encoding", l, hexs(vin.Str), diagOr(vout)), in)
+				return
+			}
+		}
+	}
 	c15gate(rec, &k, cell, c15wireFacts(n), in)
 	// the same bytes decoded into a variable that already held another key (a private EC2 key with
 	// every optional parameter): the result must be the same key, with the same gate
@@ -662,4 +701,13 @@ func c15gate(rec *mon.Recorder, k *cose.Key, cell string, f c15facts, in map[str
 			rec.Event("gate:sign-verify-mismatch(mixed material)")
 		}
 	}
+}
+
+func allZero(b []byte) bool {
+	for _, x := range b {
+		if x != 0 {
+			return false
+		}
+	}
+	return true
 }
